@@ -307,6 +307,7 @@ struct TemplateCore {
     struct LoopItem {
         const Value_T     *Value{nullptr};
         StringView<Char_T> Key{};
+        bool               HasKey{false};
     };
 
   public:
@@ -1124,10 +1125,11 @@ struct TemplateCore {
                                  &(StringUtils::EscapeHTMLSpecialChars<StringStream_T, Char_T>)))) {
             if ((tag.IDLength != SizeT8{0}) && (tag.Length == SizeT16(tag.IDLength))) {
                 // Only the bare loop variable stands for the member's key, not a path below it.
-                const StringView<Char_T> &key = loops_items_->Storage()[tag.Level].Key;
+                const LoopItem &item = loops_items_->Storage()[tag.Level];
 
-                if (key.Length() != 0) {
-                    StringUtils::EscapeHTMLSpecialChars(*stream_, key.First(), key.Length());
+                // An empty key ("" is a valid member name, and a valid group name) is still a key.
+                if (item.HasKey) {
+                    StringUtils::EscapeHTMLSpecialChars(*stream_, item.Key.First(), item.Key.Length());
                     return;
                 }
             }
@@ -1380,6 +1382,7 @@ struct TemplateCore {
                 while (loop_index < loop_size) {
                     LoopItem &item = loops_items_->Storage()[tag.Level];
                     loop_set->SetValueAndKey(loop_index, item.Value, item.Key);
+                    item.HasKey = true;
 
                     if (item.Value != nullptr) {
                         render(s_tag, s_end, content_offset, tag.EndOffset);
@@ -1389,7 +1392,8 @@ struct TemplateCore {
                 }
             } else {
                 // An array has no keys: drop the key a previous loop left at this level.
-                loops_items_->Storage()[tag.Level].Key = StringView<Char_T>{};
+                loops_items_->Storage()[tag.Level].Key    = StringView<Char_T>{};
+                loops_items_->Storage()[tag.Level].HasKey = false;
 
                 while (loop_index < loop_size) {
                     LoopItem &item = loops_items_->Storage()[tag.Level];
